@@ -44,9 +44,13 @@ def observe_engine(text, mode, txns):
     return out
 
 
-def observe_normalize(path, mode, txns, with_transforms=True):
-    """Path P2/P3: get_all_rules(path, mode) + normalize_merchant (cached engine for .rules, legacy loop for .csv)."""
+def observe_normalize(path, mode, txns, with_transforms=True, other_mode_first=False):
+    """Path P2/P3: get_all_rules(path, mode) + normalize_merchant (cached engine for .rules, legacy loop for .csv).
+    other_mode_first: the same unchanged file was loaded under the OTHER rule mode earlier in this process (a rule mode is an
+    argument of every load, not a property of the file)."""
     from tally.merchant_utils import get_all_rules, get_transforms, normalize_merchant
+    if other_mode_first:
+        get_all_rules(path, match_mode='first_match' if mode == 'most_specific' else 'most_specific')
     rules = get_all_rules(path, match_mode=mode)
     transforms = get_transforms(path, match_mode=mode) if with_transforms else None
     out = []
@@ -59,7 +63,7 @@ def observe_normalize(path, mode, txns, with_transforms=True):
     return out
 
 
-def expected_for(f, o):
+def expected_for(f, o, v=None):
     """Spec observation o (cat, sub, tags, win, subwin ids) -> concrete expectation."""
     rules = {r['id']: r for r in f['rules']}
     exp = {'tags': sorted('px1' if t == 'dynv' else t for t in o['tags'])}
@@ -67,9 +71,9 @@ def expected_for(f, o):
         exp.update(matched=False, cat=None, sub=None, merchant=None, win=None)
     else:
         w = rules[o['win']]
-        exp.update(matched=True, cat=EC.CATS[o['cat']], sub=EC.SUBS.get(o['sub'], ''), merchant=EC.expected_merchant(w),
-                   win=EC.rule_name(w))
-    exp['subwin'] = None if o['subwin'] == 'none' else EC.rule_name(rules[o['subwin']])
+        exp.update(matched=True, cat=EC.CATS[o['cat']], sub=EC.SUBS.get(o['sub'], ''), merchant=EC.expected_merchant(w, v),
+                   win=EC.rule_name(w, v))
+    exp['subwin'] = None if o['subwin'] == 'none' else EC.rule_name(rules[o['subwin']], v)
     return exp
 
 
@@ -98,7 +102,7 @@ def replay_states(states, seed, judge_name, tier):
             for vi, v in enumerate(variants):
                 text = EC.file_text(f, v)
                 txns = [EC.txn(t, v) for t in txns_abs]
-                exps = [expected_for(f, o) for o in res]
+                exps = [expected_for(f, o, v) for o in res]
                 obs = {}
                 if not v.xform:          # (MerchantEngine.match does not apply field transforms: that is normalize_merchant's job)
                     try:
@@ -109,7 +113,7 @@ def replay_states(states, seed, judge_name, tier):
                 with open(path, 'w', newline='') as fh:
                     fh.write(text)
                 try:
-                    obs['normalize'] = observe_normalize(path, mode, txns)
+                    obs['normalize'] = observe_normalize(path, mode, txns, other_mode_first=bool(vi))
                 except Exception as e:
                     obs['normalize'] = 'EXC:' + repr(e)
                 if mode == 'first_match' and EC.csv_expressible(f) and not v.neg_amount and not v.xform:
@@ -117,6 +121,7 @@ def replay_states(states, seed, judge_name, tier):
                     cv = EC.Variant(canonical=True)
                     cv.a1 = v.a1 if vi else 0        # the pattern spelling varies, the transaction stays canonical-compatible
                     cv.low = v.low
+                    cv.dupname = v.dupname
                     with open(cpath, 'w', newline='') as fh:
                         fh.write(EC.csv_text(f, cv))
                     try:
